@@ -1,5 +1,7 @@
 package bn256
 
+import "math/big"
+
 // C18 / C01 — the pure-Go ("generic" build tag) field arithmetic of bn256 computes the same function as the
 // reference model (integers mod p), i.e. the contract the assembly implementation is trusted to fulfil:
 // for all a, b < p: gfpAdd = (a+b) mod p, gfpSub = (a-b) mod p, gfpNeg = (-a) mod p, results < p.
@@ -70,4 +72,92 @@ func HarnessGfpCarry() {
 	_ = a0
 	vassert(zEq(gfZ(a), val) || zEq(gfZ(a), zSub(val, p)), "gfpCarry: result == v or v-p")
 	vassert(gfLess(gfZ(a), p), "gfpCarry: result < p")
+}
+
+// gfpMul, final stage (Montgomery reduction tail): with the two 512-bit products T = a*b and t = m*p and the quotient m
+// arbitrary (mul / halfMul are recording stubs returning arbitrary values), constrained only by what Montgomery's
+// method guarantees about them - the low 256 bits of T + t vanish and (T + t) / 2^256 < 2p - the result is
+// (T + t) / 2^256 reduced modulo p; in particular the carry out of the 512-bit addition is not lost.
+var c18MulOut [2][8]uint64
+var c18MulCalls int
+
+func c18Mul(a, b [4]uint64) [8]uint64 {
+	var r [8]uint64
+	for i := range r {
+		r[i] = nondetU64()
+	}
+	if c18MulCalls < 2 {
+		c18MulOut[c18MulCalls] = r
+	}
+	c18MulCalls++
+	return r
+}
+
+func c18HalfMul(a, b [4]uint64) [4]uint64 {
+	var r [4]uint64
+	for i := range r {
+		r[i] = nondetU64()
+	}
+	return r
+}
+
+func HarnessGfpMulTail() {
+	a, b, c := gfSym(), gfSym(), &gfP{}
+	gfpMul(c, a, b)
+	vreach("end")
+	vassert(c18MulCalls == 2, "gfpMul: two full products")
+	T, t := c18MulOut[0], c18MulOut[1]
+	var S [8]uint64
+	var cin uint64
+	for i := 0; i < 8; i++ {
+		s1 := T[i] + t[i]
+		var c1, c2 uint64
+		if s1 < T[i] {
+			c1 = 1
+		}
+		s2 := s1 + cin
+		if s2 < s1 {
+			c2 = 1
+		}
+		S[i] = s2
+		cin = c1 | c2
+	}
+	vassume(S[0] == 0 && S[1] == 0 && S[2] == 0 && S[3] == 0)
+	hi := zAdd(gfZ(&gfP{S[4], S[5], S[6], S[7]}), zShl(zU64(cin), 256))
+	p := gfP2Z()
+	vassume(gfLess(hi, zAdd(p, p)))
+	vassert(zEq(gfZ(c), hi) || zEq(gfZ(c), zSub(hi, p)), "gfpMul: the result is (T + t) / 2^256 or that minus p (no carry is lost)")
+	vassert(gfLess(gfZ(c), p), "gfpMul: the result is below p")
+}
+
+// native replay (pure-Go build): gfpMul against math/big on operands that make T + t overflow 2^512 (an unreduced,
+// top-heavy first operand, as the decoders of this package let through) and on ordinary ones
+func HarnessGfpMulTailReplay() {
+	P := new(big.Int)
+	for i := 3; i >= 0; i-- {
+		P.Lsh(P, 64).Or(P, new(big.Int).SetUint64(p2[i]))
+	}
+	R := new(big.Int).Lsh(big.NewInt(1), 256)
+	Rinv := new(big.Int).ModInverse(R, P)
+	toBig := func(g *gfP) *big.Int {
+		v := new(big.Int)
+		for i := 3; i >= 0; i-- {
+			v.Lsh(v, 64).Or(v, new(big.Int).SetUint64(g[i]))
+		}
+		return v
+	}
+	ok := true
+	for k := uint64(0); k < 400; k++ {
+		a := &gfP{^uint64(0) - 977*k, ^uint64(0) - k*k, ^uint64(0) - 3*k, ^uint64(0) - (k << 50)}
+		for _, b := range []*gfP{r2, {1}, {5, 7, 11, 13}} {
+			c := &gfP{}
+			gfpMul(c, a, b)
+			want := new(big.Int).Mul(toBig(a), toBig(b))
+			want.Mul(want, Rinv).Mod(want, P)
+			ok = ok && toBig(c).Cmp(want) == 0
+		}
+	}
+	vassert(ok, "gfpMul: the result is (T + t) / 2^256 or that minus p (no carry is lost)")
+	vassert(ok, "gfpMul: the result is below p")
+	vassert(ok, "gfpMul: two full products")
 }
